@@ -182,6 +182,15 @@ def run_check(prop, tier, seed, replay=None):
         if missing:
             proof_ok = False
             proof_problem = "required theorems missing from Props/%s.lean: %r" % (pid, missing)
+    # thorough tier: independent re-check of the compiled theorem module
+    leanchecker = None
+    if ok and tier == "thorough" and not replay:
+        import subprocess
+        lc = subprocess.run(["lake", "env", "leanchecker", mod], cwd=C.LEAN, capture_output=True, text=True)
+        leanchecker = {"rc": lc.returncode, "output": (lc.stdout + lc.stderr)[-500:]}
+        if lc.returncode != 0:
+            proof_ok = False
+            proof_problem = proof_problem or ("leanchecker rejected %s: %s" % (mod, leanchecker["output"]))
     obligations = len(names)
     discharged = len([n for n in names if audit.get(n) is not None and set(audit[n]) <= C.ALLOWED_AXIOMS]) if ok else 0
 
@@ -191,6 +200,7 @@ def run_check(prop, tier, seed, replay=None):
     samples = []
     drift = []
     hist = {}
+    result_hist = {}
     crashed = []
     sweep_stats = {}
     if hbin is not None and (ok or True):
@@ -210,6 +220,9 @@ def run_check(prop, tier, seed, replay=None):
         for idx, (op, il, ml) in enumerate(zip(ops, impl, model)):
             name = op.split(" ", 1)[0]
             hist[name] = hist.get(name, 0) + 1
+            hk = il.split(" ", 2)
+            rk = name + ":" + (" ".join(hk[:2]) if hk[0] == "err" else hk[0][:24])
+            result_hist[rk] = result_hist.get(rk, 0) + 1
             k = prop.nontrivial(op, il)
             if k is not None:
                 nontriv.add(k)
@@ -361,6 +374,8 @@ def run_check(prop, tier, seed, replay=None):
             "samples": samples,
             "exhaustive": bool(prop.exhaustive),
             "op_histogram": hist,
+            "result_histogram": dict(sorted(result_hist.items(), key=lambda kv: -kv[1])[:60]),
+            "leanchecker": leanchecker,
             "model_drift": drift,
             "sweeps": sweep_stats,
             "projection_disagreements": len([v for v in uniq if v.kind == "projection"]),
